@@ -445,6 +445,12 @@ def apply_expr_rewrites(ts, rules):
                 k += 1; pi += 1
             if ok:
                 L = ts[i].line; ri = 0
+                # a wildcard group that the replacement DROPS (format arguments of an error message, ...) and that contains arithmetic:
+                # remembered, so that a changed function whose dropped text could overflow/index is not silently accepted
+                used = set(rep[k_ + 1] for k_ in range(len(rep) - 1) if rep[k_] == '$')
+                for bk, btoks in binds.items():
+                    if bk not in used and any(str(t) in ('-', '+', '*', '/', '%', '<<', '>>', '[') for t in btoks):
+                        rule.setdefault('_dropped', []).append(' '.join(str(t) for t in btoks)[:200])
                 while ri < len(rep):
                     if rep[ri] == '$' and ri + 1 < len(rep) and rep[ri + 1].isdigit(): out += binds[rep[ri + 1]]; ri += 2
                     else: out.append(Tok(rep[ri], L)); ri += 1
